@@ -78,6 +78,9 @@ pub fn for_each_program(tier: Tier, sink: &mut dyn FnMut(Program)) {
     for (t, body) in g.cond_bodies() {
         push(mk(body, t, "cond2"));
     }
+    for (t, body) in g.negated_short_circuit_bodies() {
+        push(mk(body, t, "negated_short_circuit"));
+    }
     if tier == Tier::Thorough {
         // depth 3: every operator, every position, around every spine-2 expression
         g.spine_stream(&s2, true, &mut |t, e| push(mk(gen::ret_body(e), t, "spine3")));
